@@ -563,7 +563,7 @@ def run_one(ck, prog):
                 ok_edges = [e for sb in c18_.cfg.live_blocks() if c18_.cfg.term(sb)["k"] == "switch" for e in c18_.cfg.succ[sb] for f in c18_.edge_facts(e)
                             if f[0] == "truth" and f[2] is True and isinstance(f[1], tuple) and f[1][0] == "call" and f[1][3] == fb]
                 for e in ok_edges:
-                    if carry & c18_.cfg.reachable_from(e.dst, avoid=sp_defs - {e.dst}):
+                    if carry & c18_.cfg.reachable_from(e.dst, avoid=sp_defs):
                         bad18 = True
             ck.ob("C03.18", "released-record-not-carried-forward", bool(carry) and not bad18, fn=rus["path"],
                   detail="after syscall_free succeeded `pred = sp` is reached without `sp` having been reset to the predecessor: pred then points into the unmapped segment")
